@@ -2,6 +2,7 @@ package signaling
 
 import (
 	"bytes"
+	"encoding/hex"
 	"crypto/aes"
 	"crypto/cipher"
 	"crypto/hmac"
@@ -73,12 +74,21 @@ func vc15RevId(s string) string {
 	return vc15B64(vc15Reverse(b))
 }
 
-func vc15Name(kind string) string {
+// vc15Name = the cookie name an id of this kind is authenticated under: with a block key the
+// names carry "/" + hex(HMAC-SHA256(hashKey, "block-key|" + blockKey)).
+func vc15Name(k *vc15Keys, kind string) string {
+	base := "public-session"
 	if kind == "p" {
-		return "private-session"
+		base = "private-session"
 	}
-	return "public-session"
+	if k == nil || len(k.block) == 0 {
+		return base
+	}
+	return base + "/" + hex.EncodeToString(vc15Mac(k.hash, "block-key|"+string(k.block)))
 }
+
+// vc15CacheName = the role suffix of the hub's cache key.
+func vc15CacheName(kind string) string { return vc15Name(nil, kind) }
 
 // vc15Seal = value bytes as the encoder makes them: data, or iv ++ AES-CTR(data).
 func vc15Seal(k *vc15Keys, iv, data []byte) []byte {
@@ -129,7 +139,7 @@ func vc15OracleOp(k *vc15Keys, value []byte) string {
 
 // vc15Id = the id string for (kind, keys, date text, value bytes), as minted.
 func vc15Id(k *vc15Keys, kind, date string, value []byte) string {
-	s := vc15Cookie(k.hash, vc15Name(kind), date, vc15B64(value))
+	s := vc15Cookie(k.hash, vc15Name(k, kind), date, vc15B64(value))
 	if kind == "q" {
 		s = vc15RevId(s)
 	}
@@ -365,7 +375,7 @@ func vC15Gen(e *vEnv, r *vRand) []vCase {
 			value := vc15Seal(ka, vc15Bytes(rr, 16), data)
 			date := strconv.Itoa(1600000000 + rr.intn(200000000))
 			vb := vc15B64(value)
-			macName := vc15Name(kind)
+			macName := vc15Name(ka, kind)
 			tag := "forge"
 			switch rr.intn(16) {
 			case 0:
@@ -394,11 +404,16 @@ func vC15Gen(e *vEnv, r *vRand) []vCase {
 				vb = rr.pick([]string{"", "A", "AA", "AAA", "A===", "!!!!", vb + "A", cut})
 				tag = "forge-inner-invalid"
 			case 4:
-				macName = vc15Name(vc15Other(kind))
+				macName = vc15Name(ka, vc15Other(kind))
 				tag = "forge-mac-other-name"
 			case 5:
-				macName = rr.pick([]string{"", "session", "private-session|", "Private-Session"})
+				macName = rr.pick([]string{"", "session", "private-session|", "Private-Session", vc15Name(ka, kind) + "0"})
 				tag = "forge-mac-wrong-name"
+				// the name without the block-key binding — unless that is exactly the other key set's name
+				if ka.block != nil && !(bytes.Equal(ka.hash, kb.hash) && kb.block == nil) && rr.chance(1, 2) {
+					macName = vc15Name(nil, kind)
+					tag = "forge-mac-unbound-name"
+				}
 			case 6:
 				value = vc15Seal(ka, vc15Bytes(rr, 16), append(data, vc15Bytes(rr, 3200)...))
 				vb = vc15B64(value)
@@ -657,14 +672,14 @@ func vC15Exec(t *testing.T, c *vCase) {
 				} else {
 					d = s.hub.decodePublicSessionId(id)
 				}
-				out = vc15ShowDec(d, nil) + " " + cflag(s.hub, id, vc15Name(f[1]))
+				out = vc15ShowDec(d, nil) + " " + cflag(s.hub, id, vc15CacheName(f[1]))
 			}
 		case len(f) == 4 && f[0] == "hinv":
 			s := side(f[2])
 			if s != nil && (f[1] == "p" || f[1] == "q") {
 				id := vDec(f[3])
-				s.hub.invalidateSessionId(id, vc15Name(f[1]))
-				out = "- " + cflag(s.hub, id, vc15Name(f[1]))
+				s.hub.invalidateSessionId(id, vc15CacheName(f[1]))
+				out = "- " + cflag(s.hub, id, vc15CacheName(f[1]))
 			}
 		case len(f) == 7 && f[0] == "hreg":
 			s := side(f[1])
